@@ -59,7 +59,9 @@ def evaluate(patch, name=None, keep=False):
             if os.path.abspath(patch) != os.path.join(dst, 'patch.diff'):
                 shutil.copy(patch, os.path.join(dst, 'patch.diff'))
             note = os.path.join(os.path.dirname(patch), 'note.txt')
-            json.dump({'note': open(note).read().strip() if os.path.exists(note) else '', 'suite_with_patch': res['tests'],
+            old_meta = os.path.join(dst, 'meta.json')
+            old_note = json.load(open(old_meta)).get('note', '') if os.path.exists(old_meta) else ''
+            json.dump({'note': open(note).read().strip() if os.path.exists(note) else old_note, 'suite_with_patch': res['tests'],
                        'false_alarms': problems}, open(os.path.join(dst, 'meta.json'), 'w'), indent=1)
         if '--scratch' in sys.argv:
             sc = sys.argv[sys.argv.index('--scratch') + 1]
